@@ -237,3 +237,39 @@ func VerifC04_Fires() {
 	}
 	vf.Reach("end")
 }
+
+// Configuration x step: each timer may or may not have fired earlier in its life (history-dependent
+// state such as the reused expiration buffer), then both are armed, and ONE poll cycle delivers an
+// arbitrary batch in arbitrary order while callbacks may cancel / close / cancel-and-re-arm the
+// other timer. All guarantees are asserted at every callback entry by cbFor.
+func VerifC04_RearmFromSameBatch() {
+	vkernel.Reset(vkernel.Config{AllowAgain: true, Batch: 2, MaxWaits: 6})
+	w := &c04World{ioc: MustIO()}
+	for i := 0; i < 2; i++ {
+		t, err := NewTimer(w.ioc)
+		vf.Assume(err == nil)
+		w.tm[i].t = t
+	}
+	vf.Unwind(16)
+	for i := 0; i < 2; i++ {
+		if vf.Bool("fired-before") {
+			tm := &w.tm[i]
+			tm.active, tm.gen, tm.deadline, tm.interval, tm.runs = true, tm.gen+1, vkernel.K.Now+1, 0, 0
+			err := tm.t.ScheduleOnce(1, w.cbFor(i, tm.gen))
+			vf.Assume(err == nil)
+			w.ioc.PollOne()
+			vf.Assume(tm.runs == 1) // this set-up cycle did deliver the expiration
+			vf.Reach("opt:fired-before")
+		}
+	}
+	w.check()
+	w.schedule(0, false)
+	w.schedule(1, false)
+	w.check()
+	w.nest = 1
+	w.poll()
+	w.check()
+	w.poll()
+	w.check()
+	vf.Reach("end")
+}
